@@ -1,9 +1,32 @@
 import Driver.Util
+import Mtv.Envelope.Exec
+import Driver.C03
 namespace Driver.C04
-open Mtv Driver
+open Mtv Mtv.Envelope Mtv.Envelope.Exec Driver
 
-/-- operations of property C04; not built yet -/
+/-- operations of property C04 (see harness/cmd/vh/c04.go). The last token of each operation is the
+generator's expectation for the Go-side oracle; the model does not look at it. -/
 def handle : List String → String
+  -- DeserializeEncrypted on an arbitrary packet
+  | ["c04.open", key, pkt, _expect] =>
+    match parseTok? key, parseTok? pkt with
+    | some key, some pkt => showOutcome showMsg (openClient prims key pkt)
+    | _, _ => "bad-op"
+  -- the model of the receive path as found (defect D3); only for validating that model by hand
+  | ["c04.openorig", key, pkt, _expect] =>
+    match parseTok? key, parseTok? pkt with
+    | some key, some pkt => showOutcome showMsg (openClientOrig prims key pkt)
+    | _, _ => "bad-op"
+  -- the same packet through transport.ReadMsg (after the framing layer)
+  | ["c04.route", key, pkt, _expect] =>
+    match parseTok? key, parseTok? pkt with
+    | some key, some pkt => showRouted (route prims key pkt)
+    | _, _ => "bad-op"
+  -- DeserializeUnencrypted on an arbitrary packet
+  | ["c04.udeser", d, _expect] =>
+    match parseTok? d with
+    | some d => C03.showUnenc (Unenc.deserialize d)
+    | none => "bad-op"
   | _ => "bad-op"
 
 end Driver.C04
